@@ -22,7 +22,7 @@ def sh(cmd, cwd=None, timeout=7200):
 
 def main():
     sel = sys.argv[1:]
-    names = sorted(d for d in os.listdir(os.path.join(VERIF, 'seeded')) if os.path.isdir(os.path.join(VERIF, 'seeded', d)))
+    names = sorted(d for d in os.listdir(os.path.join(VERIF, 'seeded')) if os.path.isdir(os.path.join(VERIF, 'seeded', d)) and not d.startswith('_'))
     if sel:
         names = [n for n in names if any(n.startswith(s) for s in sel)]
     rc, out = sh('git status --porcelain --untracked-files=no', '/repo')
